@@ -269,7 +269,27 @@ func runC07(c *Ctx) {
 				for _, r := range returnsOf(dec) {
 					for _, l := range guardsOf(r.Block()) {
 						if x, eq, ok := l.nilTest(); ok && !eq && strip(x) == pc.(ssa.Value) {
-							c.check(strip(r.Results[1]) == pc.(ssa.Value), dec, "stage error", exitPos(r), "a failed PrepareRead is returned as it is", "a stage whose PrepareRead failed does not return that error: the caller sees success (or another error) for bytes that are not there")
+							same := strip(r.Results[1]) == pc.(ssa.Value)
+							// ... or through a helper that hands its error argument back unchanged (failDecode(err) (Frame, error))
+							if ex, ok := strip(r.Results[1]).(*ssa.Extract); ok && !same {
+								if hc, ok := ex.Tuple.(*ssa.Call); ok {
+									if h := hc.Call.StaticCallee(); isHelperOf(dec, h) {
+										for k, a := range hc.Call.Args {
+											if strip(a) != pc.(ssa.Value) || k >= len(h.Params) {
+												continue
+											}
+											passes := true
+											for _, hr := range returnsOf(h) {
+												if ex.Index >= len(hr.Results) || resolveCell(strip(hr.Results[ex.Index])) != ssa.Value(h.Params[k]) {
+													passes = false
+												}
+											}
+											same = passes
+										}
+									}
+								}
+							}
+							c.check(same, dec, "stage error", exitPos(r), "a failed PrepareRead is returned as it is", "a stage whose PrepareRead failed does not return that error: the caller sees success (or another error) for bytes that are not there")
 						}
 					}
 				}
